@@ -141,6 +141,7 @@ def build_node(
             return process_method(*args, **kwargs, **(dependencies_default or {}))
 
     class_method.__name__ = 'process'
+    class_method.__doc__ = process_method.__doc__
 
     class_name = class_name or f'Generic{node.__name__}'
     created_node = type(
